@@ -150,7 +150,9 @@ Definition fmt_fm1 (f : spec_float) : list Z :=
 (* ---------- interface used by the model: floats are carried as bit patterns (N) ---------- *)
 Definition fbits := N.
 Definition sf (b : N) : spec_float := of_bits (Z.of_N b).
-Definition fb (f : spec_float) : N := Z.to_N (bits_of f).
+(* bits_of is below 2^64 on every float the operations produce; the mod makes that bound a
+   syntactic fact for the encoder proofs *)
+Definition fb (f : spec_float) : N := Z.to_N (bits_of f mod 2 ^ 64).
 Definition f_of_int (z : Z) : N := fb (binary_normalize prec emax z 0 false).
 Definition f_add (a b : N) : N := fb (SFadd prec emax (sf a) (sf b)).
 Definition f_sub (a b : N) : N := fb (SFsub prec emax (sf a) (sf b)).
